@@ -1,4 +1,5 @@
 import OvniModel.Rt.Fs
+import OvniModel.Rt.FsOld
 
 /-! Statement-level definitions of C09 and C10 over the file-system model. -/
 namespace Ovni.Rt.Fs
@@ -9,11 +10,9 @@ def crashState (C : Codec) (p : Prog) (k : Nat) : Fs := run p.init (ops ((calls 
 /-- Threads have distinct tids. -/
 def WellFormed (p : Prog) : Prop := (p.threads.map (·.tid)).Nodup
 
-/-- readdir returns the entries of a thread directory in some order. -/
+/-- readdir returns the entries of a thread directory in some order (only the
+    code before the fix depends on it). -/
 def ReaddirOrder (p : Prog) : Prop := p.order.Perm [.dot, .dotdot, .f .obs, .f .json]
-
-/-- … and stream.obs comes before stream.json. -/
-def ObsFirst (p : Prog) : Prop := streamEntries p.order = [.obs, .json]
 
 /-- C09: accepted by the emulator ⇒ every visible stream contains (is exactly)
     what its thread had flushed when the process was killed. -/
@@ -43,11 +42,16 @@ def CopyExists (s : Fs) (tid : Nat) : Prop :=
 
 /-- C10: the fault was not silent — the runtime aborted and a complete copy of
     every thread's flushed bytes is still on disk, or it returned and the
-    final trace of every freed thread is complete. -/
-def NotSilent (C : Codec) (p : Prog) : Outcome → Prop
-  | .die s => ∀ t ∈ p.threads, CopyExists s t.tid
+    final trace of every freed thread is complete.  `failed` is the site of
+    the failing call: when `close(streamfd)` itself reports that the last write
+    was lost, aborting is all the runtime can do. -/
+def NotSilent (C : Codec) (p : Prog) (failed : Option Site) : Outcome → Prop
+  | .die s => failed = some .closeStream ∨ ∀ t ∈ p.threads, CopyExists s t.tid
   | .returned s => ∀ t ∈ p.threads, t.free = true → Complete C t s ∧ CopyExists s t.tid
   | .killed _ => False
+
+/-- The site of the `i`-th call. -/
+def siteAt (cs : List Call) (i : Nat) : Option Site := (cs[i]?).map (·.site)
 
 /-! ### any interleaving of the threads' calls (C09) -/
 
@@ -81,5 +85,18 @@ def FinishedAfterDataS (C : Codec) (p : Prog) (L : List FOp) : Prop :=
 def Outcome.isReturned : Outcome → Bool
   | .returned _ => true
   | _ => false
+
+/-! ### the same statements about the code before the fixes (`Rt/FsOld`) -/
+
+def CrashConsistentOld (E : EmuCfg) (C : Codec) (p : Prog) : Prop :=
+  ∀ (k : Nat) (cut : Path → Nat) (r : Root),
+    accepts E C (Old.crashState C p k) cut r = true →
+    ∀ tid ∈ visibleStreams (Old.crashState C p k) r,
+      (Old.crashState C p k).visible cut (.file r tid .obs) = some ((Old.crashState C p k).flushed tid)
+
+def FinishedAfterDataOld (C : Codec) (p : Prog) : Prop :=
+  ∀ (k : Nat) (cut : Path → Nat), ∀ t ∈ p.threads, ∀ j,
+    (Old.crashState C p k).visible cut (.file .fin t.tid .json) = some j → jsonFinished C j = true →
+    (Old.crashState C p k).visible cut (.file .fin t.tid .obs) = some t.obsBytes
 
 end Ovni.Rt.Fs
